@@ -745,6 +745,19 @@ func genProto() (string, error) {
 		return "", fmt.Errorf("ethTxHash (store/indexer.go) or ethereumTxHashFromRawBytes (fsm/ethereum.go) not found")
 	}
 	fmt.Fprintf(&b, "/-- (indexer alias, CheckReplay lookup) of an RLP-backed transaction -/\ndef ethAliasReturns : List String := %s\n\n", strList([]string{aliasIdx, aliasFsm}))
+	// the Merkle tree behind TransactionRoot / ConsensusValidators.Root (lib/crypto/hash.go)
+	hashf, err := g.ParseFile(filepath.Join(*repo, "lib/crypto/hash.go"))
+	if err != nil {
+		return "", err
+	}
+	for _, fn := range []string{"MerkleTree", "nextPowerOfTwo", "concat"} {
+		fd := hashf.FindFunc("", fn)
+		if fd == nil {
+			return "", fmt.Errorf("lib/crypto/hash.go: %s not found", fn)
+		}
+		fmt.Fprintf(&b, "def src_crypto_%s : String := %q\n", fn, g.StmtsText(fd.Body.List))
+	}
+	b.WriteString("\n")
 	// 4. public-key decoding by length (lib/crypto/key.go)
 	kf, err := g.ParseFile(filepath.Join(*repo, "lib/crypto/key.go"))
 	if err != nil {
